@@ -338,15 +338,20 @@ Proof.
 Qed.
 
 (** [a[idx] = val] on an integer array *)
-Lemma exec_store_int n st capv arrv blk B idx i ti val v tv st' tr :
+Lemma exec_store_int n st capv arrv blk B idx i val v st' tr :
   buf_at st capv arrv TInteger blk B ->
-  eval st idx = Ok (VInt i, ti) -> is_alloc_form val = false -> eval st val = Ok (VInt v, tv) ->
+  (forall x t, eval st idx = Ok (x, t) -> x = VInt i) -> is_alloc_form val = false ->
+  (forall x t, eval st val = Ok (x, t) -> x = VInt v) ->
   exec (S n) (Assignment (ArrayIndex (Var arrv) idx) val) st = Normal st' tr ->
   exists B', bstore B i v = Some B' /\ buf_at st' capv arrv TInteger blk B' /\ same_except st st' [] [blk].
 Proof.
-  intros (Hc & Hp & Hlt & bl & Hf & Hlive & Hin & Hfl & Hlen & Hcr & Harr) Ei Hal Ev H.
-  rewrite exec_assignment, eval_rhs_pure in H by auto. rewrite Ev in H. cbn [bind] in H.
-  cbn [eval_loc] in H. rewrite (eval_pvar _ _ _ _ Hp), Ei in H. cbn [bind assign] in H.
+  intros (Hc & Hp & Hlt & bl & Hf & Hlive & Hin & Hfl & Hlen & Hcr & Harr) Hi Hal Hv H.
+  rewrite exec_assignment, eval_rhs_pure in H by auto.
+  destruct (eval st val) as [[w tv]|] eqn:Ev; cbn [bind] in H; [|discriminate].
+  pose proof (Hv _ _ eq_refl); subst w.
+  cbn [eval_loc] in H. rewrite (eval_pvar _ _ _ _ Hp) in H. cbn [bind] in H.
+  destruct (eval st idx) as [[vi ti]|] eqn:Ei; cbn [bind] in H; [|discriminate].
+  pose proof (Hi _ _ eq_refl); subst vi. cbn [bind assign] in H.
   unfold IRSem.store in H. rewrite Hf, Hlive, Hin in H. cbn [negb] in H.
   destruct ((0 + i <? 0) || (b_len bl <=? 0 + i)) eqn:OB; [discriminate|].
   apply orb_false_iff in OB. destruct OB as [O1 O2]. apply Z.ltb_ge in O1. apply Z.leb_gt in O2.
@@ -357,7 +362,7 @@ Proof.
   - unfold bstore. rewrite Harr, arr_of_store by lia. reflexivity.
   - split; [exact Hc|]. split; [exact Hp|]. split; [exact Hlt|].
     eexists. split; [unfold with_heap; cbn [heap]; apply PM.gss|]. cbn [b_live b_input b_float b_len b_arr].
-    rewrite Hfl. repeat split; auto. apply cells_in_range_add; auto. lia.
+    rewrite Hfl. repeat split; auto; try lia; apply cells_in_range_add; auto; lia.
   - repeat split; auto.
     + intros b Nb _. unfold with_heap; cbn [heap]. rewrite PM.gso; auto. intros ->. apply Nb. now left.
     + unfold with_heap; cbn [next_blk]. lia.
@@ -372,9 +377,15 @@ Definition level_at (st : state) (N : lnames) (pb cb : positive) (L : lstate) : 
 Definition names_distinct (N : lnames) (others : list string) : Prop :=
   NoDup ([n_pos N; n_poscap N; n_crd N; n_crdcap N; n_ptr N] ++ others).
 
-Ltac nd_neq H :=
-  let X := fresh in intros X; revert H; unfold names_distinct; cbn [app]; rewrite X;
-  repeat (let K := fresh in intros K; inversion K; subst; clear K; cbn [In] in *; try tauto).
+Lemma nodup_neq {A} (l : list A) i j a b :
+  NoDup l -> nth_error l i = Some a -> nth_error l j = Some b -> i <> j -> a <> b.
+Proof.
+  intros ND Hi Hj Nij E. subst b. apply Nij. eapply NoDup_nth_error; eauto.
+  - apply nth_error_Some. congruence.
+  - congruence.
+Qed.
+
+Ltac nd_neq H i j := eapply (nodup_neq _ i j _ _ H); [reflexivity|reflexivity|lia].
 
 (** write_crd_assembly: [if (p >= crd_capacity) { double }  crd[p] = i] is [Append.crd_assembly] *)
 Theorem crd_assembly_refines n st N ix c pb cb L st' tr :
@@ -384,15 +395,15 @@ Theorem crd_assembly_refines n st N ix c pb cb L st' tr :
                  /\ same_except st st' [n_crdcap N; n_crd N] [cb] /\ (cb' = cb \/ cb' = next_blk st).
 Proof.
   intros ND (BP & BC & Hpc & Hcur) Hix H.
-  assert (D1 : n_crdcap N <> n_crd N) by nd_neq ND.
-  assert (D2 : n_poscap N <> n_crdcap N) by nd_neq ND.
-  assert (D3 : n_poscap N <> n_crd N) by nd_neq ND.
-  assert (D4 : n_pos N <> n_crdcap N) by nd_neq ND.
-  assert (D5 : n_pos N <> n_crd N) by nd_neq ND.
-  assert (D6 : n_ptr N <> n_crdcap N) by nd_neq ND.
-  assert (D7 : n_ptr N <> n_crd N) by nd_neq ND.
-  assert (D8 : ix <> n_crdcap N) by nd_neq ND.
-  assert (D9 : ix <> n_crd N) by nd_neq ND.
+  assert (D1 : n_crdcap N <> n_crd N) by nd_neq ND 3%nat 2%nat.
+  assert (D2 : n_poscap N <> n_crdcap N) by nd_neq ND 1%nat 3%nat.
+  assert (D3 : n_poscap N <> n_crd N) by nd_neq ND 1%nat 2%nat.
+  assert (D4 : n_pos N <> n_crdcap N) by nd_neq ND 0%nat 3%nat.
+  assert (D5 : n_pos N <> n_crd N) by nd_neq ND 0%nat 2%nat.
+  assert (D6 : n_ptr N <> n_crdcap N) by nd_neq ND 4%nat 3%nat.
+  assert (D7 : n_ptr N <> n_crd N) by nd_neq ND 4%nat 2%nat.
+  assert (D8 : ix <> n_crdcap N) by nd_neq ND 5%nat 3%nat.
+  assert (D9 : ix <> n_crd N) by nd_neq ND 5%nat 2%nat.
   unfold crd_assembly_stmt in H. rewrite exec_block in H.
   apply run_block_cons_inv in H. destruct H as (st1 & t1 & E1 & H).
   apply run_block_cons_inv in H. destruct H as (st2 & t2 & E2 & H). rewrite run_block_nil in H. inversion H; subst; clear H.
@@ -405,21 +416,341 @@ Proof.
   assert (BP1 : buf_at st1 (n_poscap N) (n_pos N) TInteger pb (s_pos L)).
   { eapply buf_at_frame; eauto. intros [X|[]]. congruence. }
   unfold crd_store_stmt in E2.
-  eapply exec_store_int in E2; eauto using eval_ivar.
+  eapply exec_store_int with (i := s_cur L) (v := c) in E2; eauto;
+    try (intros x t Ex; rewrite (eval_ivar _ _ _ Hcur1) in Ex || rewrite (eval_ivar _ _ _ Hix1) in Ex; congruence).
   destruct E2 as (B' & ST & BC2 & S2).
   assert (Hpb1 : (pb < next_blk st)%positive) by apply BP.
-  assert (Hcb1' : pb <> cb1) by (destruct Hcb1; subst; auto; lia).
+  assert (Hcb1' : pb <> cb1).
+  { destruct Hcb1; subst; auto. intros E. rewrite E in Hpb1. exact (Pos.lt_irrefl _ Hpb1). }
   exists (mkL (s_pos L) B' (s_cur L)), cb1. split; [|split; [|split; [|split]]].
   - unfold crd_assembly. now rewrite ST.
   - split; [|split; [|split]]; auto.
     + eapply buf_at_frame; eauto. intros [X|[]]. congruence.
     + eapply ivar_frame; eauto.
   - eapply ivar_frame; eauto.
-  - eapply same_except_trans; eauto.
-    destruct S2 as (E & Hh & Nn). repeat split; auto.
-    intros b Nb Lb. destruct (Pos.eq_dec b cb1) as [->|Nc].
-    + exfalso. destruct Hcb1 as [->| ->]. { apply Nb. now left. }
-      destruct S1 as (_ & _ & Nx). destruct BC1 as (_ & _ & Lt & _). lia.
-    + apply Hh; auto. intros [X|[]]. congruence.
+  - destruct S1 as (E1 & H1 & N1). destruct S2 as (E2 & H2 & N2). repeat split.
+    + intros y Y. rewrite E2 by (intros []). now apply E1.
+    + intros b Nb Lb. rewrite H2.
+      * now apply H1.
+      * intros [X|[]]. subst b. destruct Hcb1 as [->| ->]; [apply Nb; now left|]. exact (Pos.lt_irrefl _ Lb).
+      * eapply Pos.lt_le_trans; eauto.
+    + eapply Pos.le_trans; eauto.
   - exact Hcb1.
 Qed.
+
+
+(** the cursor increment *)
+Lemma same_except_set_int st x z : same_except st (set_int st x z) [x] [].
+Proof.
+  repeat split.
+  - intros y Y. apply lookup_set_int_other. intros ->. apply Y. now left.
+  - unfold set_int, with_env; cbn [next_blk]. lia.
+Qed.
+
+Lemma level_at_frame st st' vars N pb cb L :
+  same_except st st' vars [] ->
+  ~ In (n_pos N) vars -> ~ In (n_poscap N) vars -> ~ In (n_crd N) vars -> ~ In (n_crdcap N) vars -> ~ In (n_ptr N) vars ->
+  level_at st N pb cb L -> level_at st' N pb cb L.
+Proof.
+  intros S A1 A2 A3 A4 A5 (BP & BC & Hpc & Hcur). split; [|split; [|split]]; auto.
+  - eapply buf_at_frame; eauto.
+  - eapply buf_at_frame; eauto.
+  - eapply ivar_frame; eauto.
+Qed.
+
+Definition append_stmt (N : lnames) (ix : string) : stmt :=
+  Block [crd_assembly_stmt N ix; increment_stmt N] None.
+
+(** crd assembly followed by [p++] (what the loop generator puts under [if (written)]) is [Append.append] *)
+Theorem append_refines n st N ix c pb cb L st' tr :
+  names_distinct N [ix] -> level_at st N pb cb L -> ivar st ix c ->
+  exec (S (S (S (S (S n))))) (append_stmt N ix) st = Normal st' tr ->
+  exists L' cb', append L c = Some L' /\ level_at st' N pb cb' L' /\ ivar st' ix c.
+Proof.
+  intros ND LA Hix H. unfold append_stmt in H. rewrite exec_block in H.
+  apply run_block_cons_inv in H. destruct H as (st1 & t1 & E1 & H).
+  apply run_block_cons_inv in H. destruct H as (st2 & t2 & E2 & H). rewrite run_block_nil in H. inversion H; subst; clear H.
+  eapply crd_assembly_refines in E1; eauto. destruct E1 as (L1 & cb1 & CA & LA1 & Hix1 & _ & _).
+  rewrite increment_stmt_eq in E2. pose proof LA1 as (BP1 & BC1 & Hpc1 & Hcur1).
+  eapply exec_assign_int_inv in E2; eauto. destruct E2 as (z & t & Ez & I32 & ->).
+  rewrite eval_add, (eval_ivar _ _ _ Hcur1), eval_lit in Ez. cbn in Ez. unfold chk32 in Ez.
+  destruct (in_int32 (s_cur L1 + 1)); cbn in Ez; [|discriminate]. inversion Ez; subst z t; clear Ez.
+  assert (P0 : n_pos N <> n_ptr N) by nd_neq ND 0%nat 4%nat.
+  assert (P1 : n_poscap N <> n_ptr N) by nd_neq ND 1%nat 4%nat.
+  assert (P2 : n_crd N <> n_ptr N) by nd_neq ND 2%nat 4%nat.
+  assert (P3 : n_crdcap N <> n_ptr N) by nd_neq ND 3%nat 4%nat.
+  assert (P5 : ix <> n_ptr N) by nd_neq ND 5%nat 4%nat.
+  assert (NI : forall x, x <> n_ptr N -> ~ In x [n_ptr N]) by (intros x A [X|[]]; congruence).
+  exists (mkL (s_pos L1) (s_crd L1) (s_cur L1 + 1)), cb1. split; [|split].
+  - unfold append. now rewrite CA.
+  - split; [|split; [|split]]; auto.
+    + eapply buf_at_frame; eauto using same_except_set_int.
+    + eapply buf_at_frame; eauto using same_except_set_int.
+    + now apply ivar_set_int_same.
+  - eapply ivar_frame; eauto using same_except_set_int.
+Qed.
+
+(** write_pos_assembly: [pos[parent + 1] = p] is [Append.pos_assembly] *)
+Theorem pos_assembly_refines n st N parent pp tp pb cb L st' tr :
+  names_distinct N [] -> level_at st N pb cb L -> eval st parent = Ok (VInt pp, tp) ->
+  exec (S (S n)) (pos_assembly_stmt N parent) st = Normal st' tr ->
+  exists L', pos_assembly L pp = Some L' /\ level_at st' N pb cb L' /\ same_except st st' [] [pb].
+Proof.
+  intros ND (BP & BC & Hpc & Hcur) Ep H. unfold pos_assembly_stmt in H. rewrite exec_block in H.
+  apply run_block_cons_inv in H. destruct H as (st1 & t1 & E1 & H). rewrite run_block_nil in H. inversion H; subst; clear H.
+  eapply exec_store_int with (i := pp + 1) (v := s_cur L) in E1; eauto.
+  - destruct E1 as (B' & ST & BP1 & S1). exists (mkL B' (s_crd L) (s_cur L)). split; [|split]; auto.
+    + unfold pos_assembly. now rewrite ST.
+    + split; [|split; [|split]]; auto.
+      * eapply buf_at_frame; eauto. intros [X|[]]. congruence.
+      * eapply ivar_frame; eauto.
+  - intros x t Ex. rewrite eval_add, Ep, eval_lit in Ex. cbn in Ex. unfold chk32 in Ex.
+    destruct (in_int32 (pp + 1)); cbn in Ex; congruence.
+  - intros x t Ex. rewrite (eval_ivar _ _ _ Hcur) in Ex. congruence.
+Qed.
+
+(** * Part 3: sequences of emitted fragments *)
+
+(** A straight-line driver standing for the loop generator (iteration_graph/_generate_ir.py, not
+    translated): it puts each coordinate into the index variable and runs the emitted append fragment;
+    a segment ends with the emitted pos assembly for its parent position. *)
+Fixpoint segment_stmts (N : lnames) (ix : string) (cs : list Z) : list stmt :=
+  match cs with
+  | [] => []
+  | c :: r => Assignment (Var ix) (IntegerLiteral c) :: append_stmt N ix :: segment_stmts N ix r
+  end.
+
+Fixpoint segs_stmts (N : lnames) (ix : string) (parent : Z) (segs : list (list Z)) : list stmt :=
+  match segs with
+  | [] => []
+  | s :: r => (segment_stmts N ix s ++ [pos_assembly_stmt N (IntegerLiteral parent)]) ++ segs_stmts N ix (parent + 1) r
+  end.
+
+Lemma names_distinct_drop N ix : names_distinct N [ix] -> names_distinct N [].
+Proof.
+  unfold names_distinct. cbn [app]. intros H.
+  change [n_pos N; n_poscap N; n_crd N; n_crdcap N; n_ptr N; ix]
+    with ([n_pos N; n_poscap N; n_crd N; n_crdcap N; n_ptr N] ++ [ix])%list in H.
+  apply NoDup_remove_1 in H. now rewrite app_nil_r in H.
+Qed.
+
+Theorem append_all_refines n N ix : forall cs st tr0 c0 pb cb L st' tr,
+  names_distinct N [ix] -> level_at st N pb cb L -> ivar st ix c0 ->
+  run_block (S (S (S (S (S n))))) (segment_stmts N ix cs) st tr0 = Normal st' tr ->
+  exists L' cb' c1, append_all L cs = Some L' /\ level_at st' N pb cb' L' /\ ivar st' ix c1.
+Proof.
+  induction cs as [|c cs IH]; intros st tr0 c0 pb cb L st' tr ND LA Hix H.
+  - cbn [segment_stmts] in H. rewrite run_block_nil in H. inversion H; subst. exists L, cb, c0. auto.
+  - cbn [segment_stmts] in H.
+    apply run_block_cons_inv in H. destruct H as (st1 & t1 & E1 & H).
+    apply run_block_cons_inv in H. destruct H as (st2 & t2 & E2 & H).
+    eapply exec_assign_int_inv in E1; eauto. destruct E1 as (z & t & Ez & I32 & ->).
+    rewrite eval_lit in Ez. unfold chk32 in Ez. destruct (in_int32 c); cbn in Ez; [|discriminate].
+    inversion Ez; subst z t; clear Ez.
+    assert (LA1 : level_at (set_int st ix c) N pb cb L).
+    { eapply level_at_frame; eauto using same_except_set_int; intros [X|[]].
+      - revert X. nd_neq ND 5%nat 0%nat.
+      - revert X. nd_neq ND 5%nat 1%nat.
+      - revert X. nd_neq ND 5%nat 2%nat.
+      - revert X. nd_neq ND 5%nat 3%nat.
+      - revert X. nd_neq ND 5%nat 4%nat. }
+    eapply append_refines in E2; eauto using ivar_set_int_same.
+    destruct E2 as (L1 & cb1 & A1 & LA2 & Hix2).
+    eapply IH in H; eauto. destruct H as (L' & cb' & c1 & A2 & LA' & Hix').
+    exists L', cb', c1. cbn [append_all]. rewrite A1. auto.
+Qed.
+
+Theorem run_segs_refines n N ix : forall segs parent st tr0 c0 pb cb L st' tr,
+  names_distinct N [ix] -> level_at st N pb cb L -> ivar st ix c0 ->
+  run_block (S (S (S (S (S n))))) (segs_stmts N ix parent segs) st tr0 = Normal st' tr ->
+  exists L' cb' c1, run_segs L parent segs = Some L' /\ level_at st' N pb cb' L' /\ ivar st' ix c1.
+Proof.
+  induction segs as [|s segs IH]; intros parent st tr0 c0 pb cb L st' tr ND LA Hix H.
+  - cbn [segs_stmts] in H. rewrite run_block_nil in H. inversion H; subst. exists L, cb, c0. auto.
+  - cbn [segs_stmts] in H.
+    apply run_block_app in H. destruct H as (st2 & t2 & H1 & H2).
+    apply run_block_app in H1. destruct H1 as (st1 & t1 & H0 & H1).
+    eapply append_all_refines in H0; eauto. destruct H0 as (L1 & cb1 & c1 & A1 & LA1 & Hix1).
+    apply run_block_cons_inv in H1. destruct H1 as (st1' & t1' & E & H1). rewrite run_block_nil in H1. inversion H1; subst; clear H1.
+    assert (exists tp, eval st1 (IntegerLiteral parent) = Ok (VInt parent, tp)) as (tp & Ep).
+    { destruct (eval st1 (IntegerLiteral parent)) as [[v t]|e] eqn:Ev.
+      - rewrite eval_lit in Ev. unfold chk32 in Ev. destruct (in_int32 parent); cbn in Ev; [|discriminate].
+        inversion Ev; subst. eauto.
+      - exfalso. unfold pos_assembly_stmt in E. rewrite exec_block, run_block_cons, exec_assignment in E.
+        rewrite eval_rhs_pure in E by reflexivity. pose proof LA1 as (_ & _ & _ & Hcur).
+        rewrite (eval_ivar _ _ _ Hcur) in E. cbn [bind eval_loc] in E.
+        destruct LA1 as ((_ & Hp & _) & _). rewrite (eval_pvar _ _ _ _ Hp) in E. cbn [bind] in E.
+        rewrite eval_add, Ev in E. cbn in E. discriminate. }
+    eapply pos_assembly_refines in E; eauto using names_distinct_drop.
+    destruct E as (L2 & PA & LA2 & S2).
+    assert (Hix2 : ivar st2 ix c1) by (eapply ivar_frame; eauto).
+    eapply IH in H2; eauto. destruct H2 as (L' & cb' & c2 & R & LA' & Hix').
+    exists L', cb', c2. cbn [run_segs]. rewrite A1, PA. auto.
+Qed.
+
+(** the names are those of the regenerated name functions (gen/Names.v, TIE "names") *)
+Lemma names_of_are_generated t l :
+  let N := names_of t l in
+  Var (n_pos N) = pos_name (Tensor_name t) l /\ Var (n_poscap N) = pos_capacity_name (Tensor_name t) l
+  /\ Var (n_crd N) = crd_name (Tensor_name t) l /\ Var (n_crdcap N) = crd_capacity_name (Tensor_name t) l
+  /\ Var (n_ptr N) = layer_pointer (Tensor_id t) l.
+Proof. repeat split. Qed.
+
+Example names_distinct_example :
+  names_distinct (names_of (MkTensor "A" "A" ["i"%string] [Mode_compressed]) 0) ["i"%string].
+Proof.
+  unfold names_distinct. vm_compute.
+  repeat (constructor; [cbn [In]; intuition discriminate|]). constructor.
+Qed.
+
+(** * write_pos_allocation on the machine *)
+
+Lemma exec_grow_eval n st m capv arrv ety newcap st' tr :
+  exec (S n) (grow_stmt m capv arrv ety newcap) st = Normal st' tr -> exists v t, eval st m = Ok (v, t).
+Proof.
+  unfold grow_stmt. rewrite exec_branch, eval_geq. destruct (eval st m) as [[v t]|e]; eauto. cbn. discriminate.
+Qed.
+
+Definition alloc_capv tl dims := let '(_, capv, _, _, _) := alloc_target tl dims in capv.
+Definition alloc_arrv tl dims := let '(_, _, arrv, _, _) := alloc_target tl dims in arrv.
+Definition alloc_ety tl dims := let '(_, _, _, ety, _) := alloc_target tl dims in ety.
+Definition alloc_bonus tl dims := let '(_, _, _, _, bonus) := alloc_target tl dims in bonus.
+
+(** no dense layers in between: [if (p + bonus >= capacity) { double }] is [grow_double _ (p + bonus)]
+    -- [Append.pos_allocation PDouble] for the next level's pos array (bonus 1),
+       [Append.vals_allocation PDouble] for the value array (bonus 0) *)
+Theorem pos_allocation_double_refines n tl st pp blk B st' tr :
+  alloc_capv tl [] <> alloc_arrv tl [] ->
+  ivar st (vname (layer_pointer (Tensor_id (TensorLayer_tensor tl)) (TensorLayer_layer tl))) pp ->
+  buf_at st (alloc_capv tl []) (alloc_arrv tl []) (alloc_ety tl []) blk B ->
+  exec (S (S (S (S n)))) (pos_allocation_stmt tl []) st = Normal st' tr ->
+  exists blk', buf_at st' (alloc_capv tl []) (alloc_arrv tl []) (alloc_ety tl []) blk'
+                 (grow_double B (pp + alloc_bonus tl []))
+               /\ same_except st st' [alloc_capv tl []; alloc_arrv tl []] [blk].
+Proof.
+  unfold pos_allocation_stmt, alloc_capv, alloc_arrv, alloc_ety, alloc_bonus.
+  destruct (alloc_target tl []) as [[[[comment capv] arrv] ety] bonus].
+  intros Hne Hp BA H. rewrite exec_block in H.
+  apply run_block_cons_inv in H. destruct H as (st1 & t1 & E & H). rewrite run_block_nil in H. inversion H; subst; clear H.
+  destruct (exec_grow_eval _ _ _ _ _ _ _ _ _ E) as (v & t & Ev).
+  assert (v = VInt (pp + bonus)).
+  { unfold layer_pointer in Hp, Ev. cbn [vname] in Hp. rewrite eval_add, (eval_ivar _ _ _ Hp), eval_lit in Ev.
+    cbn in Ev. unfold chk32 in Ev. destruct (in_int32 bonus); cbn in Ev; [|discriminate].
+    destruct (in_int32 (pp + bonus)); cbn in Ev; congruence. }
+  subst v. eapply exec_grow_double in E; eauto. destruct E as (blk' & BA' & S' & _). eauto.
+Qed.
+
+(** dense layers of total size [D] in between: growth to [max (2 * capacity, (p + 1) * D + bonus)] is
+    [grow_max] -- [Append.pos_allocation (PMax D)] / [Append.vals_allocation (PMax D)] *)
+Theorem pos_allocation_max_refines n tl d dims st pp D tD blk B st' tr :
+  alloc_capv tl (d :: dims) <> alloc_arrv tl (d :: dims) ->
+  ivar st (vname (layer_pointer (Tensor_id (TensorLayer_tensor tl)) (TensorLayer_layer tl))) pp ->
+  eval st (dims_product (d :: dims)) = Ok (VInt D, tD) ->
+  buf_at st (alloc_capv tl (d :: dims)) (alloc_arrv tl (d :: dims)) (alloc_ety tl (d :: dims)) blk B ->
+  exec (S (S (S (S n)))) (pos_allocation_stmt tl (d :: dims)) st = Normal st' tr ->
+  exists blk', buf_at st' (alloc_capv tl (d :: dims)) (alloc_arrv tl (d :: dims)) (alloc_ety tl (d :: dims)) blk'
+                 (grow_max B ((pp + 1) * D + alloc_bonus tl (d :: dims)))
+               /\ same_except st st' [alloc_capv tl (d :: dims); alloc_arrv tl (d :: dims)] [blk].
+Proof.
+  unfold pos_allocation_stmt, alloc_capv, alloc_arrv, alloc_ety, alloc_bonus.
+  destruct (alloc_target tl (d :: dims)) as [[[[comment capv] arrv] ety] bonus].
+  intros Hne Hp ED BA H. rewrite exec_block in H.
+  apply run_block_cons_inv in H. destruct H as (st1 & t1 & E & H). rewrite run_block_nil in H. inversion H; subst; clear H.
+  destruct (exec_grow_eval _ _ _ _ _ _ _ _ _ E) as (v & t & Ev).
+  assert (v = VInt ((pp + 1) * D + bonus)).
+  { unfold layer_pointer in Hp, Ev. cbn [vname] in Hp.
+    rewrite eval_add, eval_mul, eval_add, (eval_ivar _ _ _ Hp), !eval_lit, ED in Ev.
+    cbn in Ev. unfold chk32 in Ev.
+    unfold bin2, bind in Ev.
+    repeat match type of Ev with
+           | context [if in_int32 ?x then _ else _] =>
+               destruct (in_int32 x); cbn in Ev; unfold chk32, bind in Ev; try discriminate
+           end.
+    congruence. }
+  subst v. eapply exec_grow_max in E; eauto. destruct E as (blk' & BA' & S' & _). eauto.
+Qed.
+
+(** * write_declarations / write_cleanup: closed forms for the mode strings of order 1 and 2
+      (what is regenerated is compared with the fragments that model/Append.v transcribes:
+      [decl_level] = [decl_level_stmts], [cleanup] = [cleanup_level_stmts]).  The general statement
+      (every mode list, by induction over the loop) and the machine refinement of these two emitters
+      are NOT proved. *)
+
+Definition dcl (x : expr) (t : ty) (v : expr) : stmt := DeclarationAssignment (Declaration x t) v.
+
+(** pos_capacity = pos_size; pos = alloc(pos_capacity); pos[0] = 0; crd_capacity = c0; crd = alloc(crd_capacity) *)
+Definition decl_level_stmts (name : string) (i : Z) (pos_size c0 : expr) : list stmt :=
+  [dcl (pos_capacity_name name i) TInteger pos_size;
+   Assignment (pos_name name i) (ArrayAllocate TInteger (pos_capacity_name name i));
+   Assignment (ArrayIndex (pos_name name i) (IntegerLiteral 0)) (IntegerLiteral 0);
+   dcl (crd_capacity_name name i) TInteger c0;
+   Assignment (crd_name name i) (ArrayAllocate TInteger (crd_capacity_name name i))].
+
+Definition decl_ptr_stmt (id : string) (i : Z) : stmt := dcl (layer_pointer id i) TInteger (IntegerLiteral 0).
+
+Definition decl_vals_stmts (name : string) (size : expr) : list stmt :=
+  [dcl (vals_capacity_name name) TInteger size;
+   Assignment (vals_name name) (ArrayAllocate TFloat (vals_capacity_name name))].
+
+Definition cleanup_level_stmts (id name : string) (i : Z) (shrink_pos : option expr) : list stmt :=
+  (match shrink_pos with
+   | Some prev => [Assignment (pos_name name i) (ArrayReallocate (pos_name name i) TInteger (Add prev (IntegerLiteral 1)))]
+   | None => []
+   end ++
+   [Assignment (crd_name name i) (ArrayReallocate (crd_name name i) TInteger (layer_pointer id i));
+    Assignment (ArrayIndex (ArrayIndex (AttributeAccess (Var name) "indices") (IntegerLiteral i)) (IntegerLiteral 0)) (pos_name name i);
+    Assignment (ArrayIndex (ArrayIndex (AttributeAccess (Var name) "indices") (IntegerLiteral i)) (IntegerLiteral 1)) (crd_name name i)])%list.
+
+Definition cleanup_vals_stmts (name : string) (padded : option expr) : list stmt :=
+  (match padded with
+   | Some p => [Assignment (vals_name name) (ArrayReallocate (vals_name name) TFloat p)]
+   | None => []
+   end ++ [Assignment (AttributeAccess (Var name) "vals") (vals_name name)])%list.
+
+Definition one := IntegerLiteral 1.
+
+Theorem gen_declarations_c cap id name ix kt : KernelType_is_assemble kt = true ->
+  option_map sb_lines (AppendOutput_write_declarations cap (MkAppendOutput (MkTensor id name [ix] [Mode_compressed]) 0) kt)
+  = Some (decl_level_stmts name 0 (Add one one) (default_array_size cap) ++ [decl_ptr_stmt id 0]
+          ++ decl_vals_stmts name (default_array_size cap))%list.
+Proof. destruct kt; try discriminate; reflexivity. Qed.
+
+Theorem gen_declarations_compute cap id name ix :
+  option_map sb_lines (AppendOutput_write_declarations cap (MkAppendOutput (MkTensor id name [ix] [Mode_compressed]) 0) KernelType_compute)
+  = Some [decl_ptr_stmt id 0].
+Proof. reflexivity. Qed.
+
+Theorem gen_declarations_dc cap id name i j kt : KernelType_is_assemble kt = true ->
+  option_map sb_lines (AppendOutput_write_declarations cap (MkAppendOutput (MkTensor id name [i; j] [Mode_dense; Mode_compressed]) 0) kt)
+  = Some (decl_level_stmts name 1 (Add (Multiply one (dimension_name i)) one) (default_array_size cap)
+          ++ [decl_ptr_stmt id 1] ++ decl_vals_stmts name (default_array_size cap))%list.
+Proof. destruct kt; try discriminate; reflexivity. Qed.
+
+Theorem gen_declarations_cc cap id name i j kt : KernelType_is_assemble kt = true ->
+  option_map sb_lines (AppendOutput_write_declarations cap (MkAppendOutput (MkTensor id name [i; j] [Mode_compressed; Mode_compressed]) 0) kt)
+  = Some (decl_level_stmts name 0 (Add one one) (default_array_size cap) ++ [decl_ptr_stmt id 0]
+          ++ decl_level_stmts name 1 (default_array_size cap) (default_array_size cap) ++ [decl_ptr_stmt id 1]
+          ++ decl_vals_stmts name (default_array_size cap))%list.
+Proof. destruct kt; try discriminate; reflexivity. Qed.
+
+Theorem gen_cleanup_c id name ix kt : KernelType_is_assemble kt = true ->
+  option_map sb_lines (AppendOutput_write_cleanup (MkAppendOutput (MkTensor id name [ix] [Mode_compressed]) 0) kt)
+  = Some (cleanup_level_stmts id name 0 None ++ cleanup_vals_stmts name (Some (Add (layer_pointer id 0) one)))%list.
+Proof. destruct kt; try discriminate; reflexivity. Qed.
+
+Theorem gen_cleanup_cc id name i j kt : KernelType_is_assemble kt = true ->
+  option_map sb_lines (AppendOutput_write_cleanup (MkAppendOutput (MkTensor id name [i; j] [Mode_compressed; Mode_compressed]) 0) kt)
+  = Some (cleanup_level_stmts id name 0 None ++ cleanup_level_stmts id name 1 (Some (layer_pointer id 0))
+          ++ cleanup_vals_stmts name (Some (Add (layer_pointer id 1) one)))%list.
+Proof. destruct kt; try discriminate; reflexivity. Qed.
+
+Theorem gen_cleanup_cd id name i j kt : KernelType_is_assemble kt = true ->
+  option_map sb_lines (AppendOutput_write_cleanup (MkAppendOutput (MkTensor id name [i; j] [Mode_compressed; Mode_dense]) 0) kt)
+  = Some (cleanup_level_stmts id name 0 None
+          ++ cleanup_vals_stmts name (Some (Multiply (Add (layer_pointer id 0) one) (dimension_name j))))%list.
+Proof. destruct kt; try discriminate; reflexivity. Qed.
+
+(** compute kernels: write_cleanup emits nothing, write_declarations only the cursors (no allocation form) *)
+Theorem gen_cleanup_compute o : AppendOutput_write_cleanup o KernelType_compute
+  = Some (MkSB [] (Some ("Assembling output tensor " ++ Tensor_name (AppendOutput_output o))%string)).
+Proof. reflexivity. Qed.
